@@ -128,6 +128,44 @@ def local_names(fnode):
     return out
 
 
+AXIS_METHODS = {"sum", "any", "all", "max", "min", "prod", "mean", "cumsum", "argmax", "argmin"}
+SET_HELPERS = {"pa", "ch", "neighbors", "adj", "na", "set", "frozenset"}
+SET_METHODS = {"intersection": ast.BitAnd, "union": ast.BitOr, "difference": ast.Sub}
+
+
+def normalise(tree):
+    """Spellings with one meaning, rewritten in place to the one the analyses read (positions kept):
+    `x.sum(0)` / `np.sum(x, 0)` -> `axis=0`; `np.copy(X)` -> `X.copy()`; `s.intersection(t)` / `.union` / `.difference`
+    -> `s & t` / `|` / `-` when s is a call of a node-set helper or set(...)."""
+    nps = {(al.asname or al.name) for n in tree.body if isinstance(n, ast.Import) for al in n.names if al.name == "numpy"}
+
+    class N(ast.NodeTransformer):
+        def visit_Call(self, node):
+            self.generic_visit(node)
+            f = node.func
+            if not isinstance(f, ast.Attribute):
+                return node
+            is_np = isinstance(f.value, ast.Name) and f.value.id in nps
+            axis_const = lambda a: isinstance(a, ast.Constant) and type(a.value) is int or (isinstance(a, ast.UnaryOp) and isinstance(a.op, ast.USub) and isinstance(a.operand, ast.Constant))
+            if f.attr in AXIS_METHODS and not node.keywords:
+                if is_np and len(node.args) == 2 and axis_const(node.args[1]):
+                    node.keywords = [ast.keyword(arg="axis", value=node.args[1])]
+                    node.args = node.args[:1]
+                elif not is_np and len(node.args) == 1 and axis_const(node.args[0]):
+                    node.keywords = [ast.keyword(arg="axis", value=node.args[0])]
+                    node.args = []
+                return node
+            if is_np and f.attr == "copy" and len(node.args) == 1 and not node.keywords and not isinstance(node.args[0], ast.Starred):
+                return ast.copy_location(ast.Call(func=ast.copy_location(ast.Attribute(value=node.args[0], attr="copy", ctx=ast.Load()), node), args=[], keywords=[]), node)
+            if f.attr in SET_METHODS and len(node.args) == 1 and not node.keywords and isinstance(f.value, ast.Call) and isinstance(f.value.func, ast.Name) and \
+                    f.value.func.id in SET_HELPERS and not isinstance(node.args[0], ast.Starred):
+                return ast.copy_location(ast.BinOp(left=f.value, op=SET_METHODS[f.attr](), right=node.args[0]), node)
+            return node
+    N().visit(tree)
+    ast.fix_missing_locations(tree)
+    return tree
+
+
 class Module:
     def __init__(self, name, path, relpath):
         self.name, self.path, self.relpath = name, path, relpath
@@ -135,7 +173,7 @@ class Module:
             raw = f.read()
         self.sha256 = hashlib.sha256(raw).hexdigest()
         self.src = raw.decode("utf-8")
-        self.tree = ast.parse(self.src, filename=path)
+        self.tree = normalise(ast.parse(self.src, filename=path))
         self.package = name.split(".")[0]
         self.is_pkg = os.path.basename(path) == "__init__.py"
         self.imports = {}      # alias -> dotted
